@@ -288,7 +288,11 @@ class PlainQuantity(Generic[MagnitudeT], PrettyIPython, SharedRegistryObject):
         if self_base.dimensionless:
             return hash(self_base.magnitude)
 
-        return hash((self_base.__class__, self_base.magnitude, self_base.units))
+        # Equality only looks at the dimensionality (1 Hz == 1 Bq although their
+        # base units differ by the dimensionless "count"), so must the hash.
+        return hash(
+            (self_base.__class__, self_base.magnitude, self_base.dimensionality)
+        )
 
     @property
     def magnitude(self) -> MagnitudeT:
